@@ -119,7 +119,7 @@ class Window11:
             res = [0, win.vertical_scroll, win.vertical_scroll_2, win.horizontal_scroll, mw, bw,
                    [ui.cursor_position.y, ui.cursor_position.x],
                    [cp.y, cp.x] if cp is not None else [],
-                   look, len(r2) - nkeys, vlook, grid]
+                   look, len(r2) - nkeys, None, vlook, grid]
             # column maps of the cursor line, as the control exposes them
             doc = self.buf.document
             pl = self.ctl._last_get_processed_line(doc.cursor_position_row)
@@ -136,7 +136,16 @@ class Window11:
                     d2s.append(pl.display_to_source(v) if v is not None else None)
                 except Exception:  # noqa
                     d2s.append(None)
-            obs = dict(W=W, H=H, xpos=xpos, ypos=ypos, mw=mw, bw=bw, text=text, cursor=cursor, lines=lines,
+            # display_to_source on EVERY display column of the cursor line (incl. the trailing blank)
+            dline = lines[ui.cursor_position.y]
+            d2s_all = []
+            for dcol in range(len(dline)):
+                try:
+                    d2s_all.append(pl.display_to_source(dcol))
+                except Exception:  # noqa
+                    d2s_all.append(-77777)
+            res[10] = d2s_all
+            obs = dict(d2s_all=d2s_all, W=W, H=H, xpos=xpos, ypos=ypos, mw=mw, bw=bw, text=text, cursor=cursor, lines=lines,
                        ui_cursor=(ui.cursor_position.y, ui.cursor_position.x), r2=dict(r2), vl=dict(vl),
                        cp=(cp.y, cp.x) if cp is not None else None, scr=scr, s2d=s2d, d2s=d2s,
                        doc_rc=(doc.cursor_position_row, doc.cursor_position_col),
@@ -296,6 +305,16 @@ def oracle_state(cfg, st, obs):
     for i in range(len(s2d) - 1):
         if not s2d[i] < s2d[i + 1]:
             return ("source_to_display not increasing at %d" % i, "colmap")
+    # every display column d maps back to the source column whose image interval
+    # [s2d(i), s2d(i+1)) contains it (columns before the image of column 0 belong to
+    # the text inserted before the input: nothing demanded there)
+    for dcol, got in enumerate(obs["d2s_all"]):
+        if dcol < s2d[0]:
+            continue
+        want = max(i for i in range(len(s2d)) if s2d[i] <= dcol)
+        if got != want:
+            return ("display_to_source(%d) = %r, but display column %d lies in the image [%d, %s) of source column %d" % (
+                dcol, got, dcol, s2d[want], s2d[want + 1] if want + 1 < len(s2d) else "..", want), "colmap-interior")
     # cursor cell
     pos = obs["r2"].get((row, col))
     if pos is None:
@@ -402,7 +421,9 @@ def cause_of(cfg, st, obs):
     """Input-side root cause tag of a cursor-visibility failure (used only to
     tag violations, so that a known finding matches exactly its own family)."""
     row, col = obs["ui_cursor"]
-    under = obs["lines"][row][col] if col < len(obs["lines"][row]) else " "
+    if not (0 <= row < len(obs["lines"]) and 0 <= col < len(obs["lines"][row])):
+        return "content-cursor-outside-line"
+    under = obs["lines"][row][col]
     if _widths(under)[1] == 0:
         return "zero-width-cursor"
     if cfg[0]:
